@@ -317,6 +317,11 @@ func (brr *BalanceRR) leastConnsSimpleBalance() (*backend.BfeBackend, error) {
 		return candidates[0].backend, nil
 	}
 
+	// candidates may become unavailable between the two scans of leastConnsBalance
+	if len(candidates) == 0 {
+		return nil, fmt.Errorf("rr_bal:all backend is down")
+	}
+
 	// random select
 	return randomBalance(candidates)
 }
@@ -386,6 +391,9 @@ func (brr *BalanceRR) simpleBalance() (*backend.BfeBackend, error) {
 	defer brr.Unlock()
 
 	backends := brr.backends
+	if len(backends) == 0 {
+		return nil, fmt.Errorf("rr_bal:all backend is down")
+	}
 	allBackendDown := true
 
 	next := brr.next
@@ -404,7 +412,8 @@ func (brr *BalanceRR) simpleBalance() (*backend.BfeBackend, error) {
 				backend.Name, avail, backendRR.weight)
 		}
 
-		if avail && backendRR.weight != 0 {
+		// Note: a backend with negative weight never gets current > 0
+		if avail && backendRR.weight > 0 {
 			allBackendDown = false
 		}
 
@@ -425,6 +434,8 @@ func (brr *BalanceRR) simpleBalance() (*backend.BfeBackend, error) {
 				brr.initWeight()
 				brr.next = 0
 				next = 0
+				// a full scan after reset without usable backend must end the loop
+				allBackendDown = true
 			}
 		}
 	}
